@@ -192,7 +192,8 @@ def run_dag(ctx, n, tiny):
                     key = K_GT1
                 elif fs and min(fs) < 1:
                     key = K_LT1
-                ctx.report(f"kMinPathError is infeasible although k={k_eff} >= covering number {width} (no subpath constraints)", rep, key=key)
+                errlib.report(ctx, f"kMinPathError is infeasible although k={k_eff} >= covering number {width} (no subpath constraints)", rep,
+                              "kMinPathError", a, m, key=key)
         # exhaustive optimum (edge origin, integer data, no constraints, no given weights)
         if tiny and edge_mode and not cons and given is None and exact and not a.get("length_attr") and status in ("kOptimal", "kInfeasible") \
                 and m.k <= 3 and len(paths) <= 14:
@@ -215,7 +216,7 @@ def run_dag(ctx, n, tiny):
                                      (fb is not None and impl_val is not None and abs(float(fb) - impl_val) <= 1e-6)
                         if reproduces:
                             key = K_GT1 if max(fs) > 1 else (K_LT1 if min(fs) < 1 else None)
-                    ctx.report(f"kMinPathError objective {impl_val} differs from the exhaustive optimum {best} (k={m.k})", rep, key=key)
+                    errlib.report(ctx, f"kMinPathError objective {impl_val} differs from the exhaustive optimum {best} (k={m.k})", rep, "kMinPathError", a, m, key=key)
         ctx.case(["mpe", tiny, errlib.describe(a)], nontrivial=len(impl["rows"]) > 12,
                  sample={"edges": errlib.describe(a)["edges"], "k": k, "options": {o: str(v) for o, v in a.items() if o not in ("G", "solver_options", "k")}})
 
@@ -256,7 +257,12 @@ def run_cyclic(ctx, n):
             st = m.solver.get_model_status()
             ctx.count("E2_mpe_cycles", "unsolved:" + str(st))
             if st == "kInfeasible":
-                cyclic_infeasible(ctx, "kMinPathErrorCycles", a, width, m.k)
+                why = errlib.solver_disagrees("kMinPathErrorCycles", a, m)
+                if why:
+                    ctx.report(f"kMinPathErrorCycles is infeasible although k={m.k} >= covering number {width} [HiGHS contradicts itself: " + why + "]",
+                               {"class": "kMinPathErrorCycles", "args": errlib.describe(a), "highs": why}, key=errlib.K_HIGHS)
+                else:
+                    cyclic_infeasible(ctx, "kMinPathErrorCycles", a, width, m.k)
         ctx.case(["mpe-cyc", errlib.describe(a)], nontrivial=c07.G_has_cycle(a["G"]))
 
 
@@ -278,8 +284,8 @@ def run_family(ctx):
             st = m.solver.get_model_status()
             if not m.is_solved():
                 if st == "kInfeasible":
-                    ctx.report(f"kMinPathErrorCycles is infeasible on '{fam['name']}' although k={m.k} >= covering number {fam['width']} "
-                               f"and a solution within every repetition cap exists", rep)
+                    errlib.report(ctx, f"kMinPathErrorCycles is infeasible on '{fam['name']}' although k={m.k} >= covering number {fam['width']} "
+                                  f"and a solution within every repetition cap exists", rep, "kMinPathErrorCycles", args, m)
                 else:
                     ctx.count("E2_cyclic_family", "inconclusive:" + str(st))
                 continue
@@ -288,7 +294,8 @@ def run_family(ctx):
                 continue
             if abs(so - float(fam["mpe_opt"])) > 1e-6:
                 rep["solution"] = {x: y for x, y in m.get_solution().items() if not x.startswith("_")}
-                ctx.report(f"kMinPathErrorCycles on '{fam['name']}' (k={m.k}) returns total slack {so}, the optimum is {fam['mpe_opt']}", rep)
+                errlib.report(ctx, f"kMinPathErrorCycles on '{fam['name']}' (k={m.k}) returns total slack {so}, the optimum is {fam['mpe_opt']}", rep,
+                              "kMinPathErrorCycles", args, m)
             else:
                 ctx.count("E2_cyclic_family", "optimum_agrees")
 
